@@ -55,7 +55,10 @@ where
         let semaphore = Arc::clone(&self.semaphore);
         let semaphore_for_check = Arc::clone(&self.semaphore);
         let config = Arc::clone(&self.config);
-        let mut inner = self.inner.clone();
+        // Call the instance that was driven to readiness by poll_ready and leave a
+        // fresh clone behind (a clone has not been polled ready)
+        let clone = self.inner.clone();
+        let mut inner = std::mem::replace(&mut self.inner, clone);
         let start_time = Instant::now();
 
         #[cfg(feature = "metrics")]
